@@ -48,7 +48,7 @@ EXTENDS Integers, Sequences, FiniteSets, TLC, Json
 
 M == INSTANCE Metadata WITH MaxDefs <- 0, MaxId <- 0, Variant <- "code", Emit <- FALSE,
                             ids <- <<>>, shape <- 0, stage <- "none"
-G == INSTANCE MetadataGraph WITH MaxN <- 0, Emit <- FALSE, pat <- <<>>, stage <- "none"
+G == INSTANCE MetadataGraph WITH MaxN <- 0, BigPows <- {}, Dense <- 0, Emit <- FALSE, pat <- <<>>, stage <- "none"
 
 Iso   == ndJsonDeserialize("md_iso_rec.ndjson")
 IR    == ndJsonDeserialize("md_ir_rec.ndjson")
